@@ -20,12 +20,22 @@ extern const struct crypto_aes_key * g_aes_key;	/* ghost point: key (identity of
 extern uint8_t g_aes_X[16];			/* ghost point: input block */
 extern uint8_t g_aes_Y[16];			/* E(g_aes_key, g_aes_X) */
 extern size_t g_i;				/* G1 ghost byte index inside one call's buffer */
+/*
+ * Ghost arguments naming the buffers of the current public stream call.  The helper contracts talk about memory
+ * through these (g_ctr_out[offset]) instead of through the advancing cursor pointers: a cursor that was havocked
+ * by a loop contract / replaced callee has no points-to information in CBMC, and a dereference through it
+ * case-splits over every object of the program (measured: 3.8 M variables, out of memory).
+ */
+extern const uint8_t * g_ctr_in;
+extern uint8_t * g_ctr_out;
 
 #ifdef C02_GHOST_DEFINE
 const struct crypto_aes_key * g_aes_key;
 uint8_t g_aes_X[16];
 uint8_t g_aes_Y[16];
 size_t g_i;
+const uint8_t * g_ctr_in;
+uint8_t * g_ctr_out;
 #endif
 
 #ifndef CTR_MAXLEN
@@ -102,6 +112,15 @@ size_t g_i;
 	 __CPROVER_POINTER_OFFSET(in) + (n) <= __CPROVER_POINTER_OFFSET(out) || \
 	 __CPROVER_POINTER_OFFSET(out) + (n) <= __CPROVER_POINTER_OFFSET(in)))
 
+/* cursor (inp, outp) lies inside the current call's buffers, both at the same offset */
+#define CTR_OFF(outp) ((size_t)(__CPROVER_POINTER_OFFSET(outp) - __CPROVER_POINTER_OFFSET(g_ctr_out)))
+#define CTR_CURSOR_IN_CALL(inp, outp) ( \
+	__CPROVER_same_object(inp, g_ctr_in) && __CPROVER_same_object(outp, g_ctr_out) && \
+	__CPROVER_POINTER_OFFSET(inp) >= __CPROVER_POINTER_OFFSET(g_ctr_in) && \
+	__CPROVER_POINTER_OFFSET(outp) >= __CPROVER_POINTER_OFFSET(g_ctr_out) && \
+	__CPROVER_POINTER_OFFSET(inp) - __CPROVER_POINTER_OFFSET(g_ctr_in) == \
+	__CPROVER_POINTER_OFFSET(outp) - __CPROVER_POINTER_OFFSET(g_ctr_out))
+
 /*
  * The stream contract (same text for crypto_aesctr_stream in every build and for crypto_aesctr_aesni_stream):
  *   bytectr' = bytectr + buflen;  INV preserved;  for every i < buflen:
@@ -113,6 +132,7 @@ size_t g_i;
 	__CPROVER_requires(PRE_OBJ(stream, sizeof(struct crypto_aesctr)) && CTR_INV(stream)) \
 	__CPROVER_requires((buflen) <= CTR_MAXLEN && (stream)->bytectr <= UINT64_MAX - (buflen)) \
 	__CPROVER_requires(CTR_BUFS_OK(inbuf, outbuf, buflen)) \
+	__CPROVER_requires(g_ctr_in == (inbuf) && g_ctr_out == (outbuf)) \
 	__CPROVER_requires(!__CPROVER_same_object(stream, outbuf) && !__CPROVER_same_object(stream, inbuf)) \
 	__CPROVER_assigns((stream)->bytectr, __CPROVER_object_upto((stream)->buf, 16), \
 	    __CPROVER_object_upto((stream)->pblk + 8, 8), __CPROVER_object_upto(outbuf, buflen)) \
